@@ -103,17 +103,35 @@ def make_schema(rng):
 
     grow([], rng.choice(["map", "map", "list"]), 0)
     rules = []
+    docspecs = {}
+    from harness.props import grammardrv as gd
+    import copy as _copy
     for parts, kind, child_keys in nodes:
-        rules.append(valida.Rule(path=valida.DataPath(*parts), condition=cond_for(rng, kind, child_keys), doc=make_doc(rng)))
+        cond = cond_for(rng, kind, child_keys)
+        if rng.random() < 0.35:
+            # the rule comes from a SPEC with a doc block in one of the accepted shapes: the tree shows the block as
+            # Rule.from_spec normalises it (Grammar.tla NormDoc)
+            shape = _copy.deepcopy(rng.choice(gd.DOC_SHAPES))
+            pspec = [{"type": "map_value"} if isinstance(x, MapValue) else {"type": "list_value"} if isinstance(x, ListValue) else x
+                     for x in parts]
+            r = valida.Rule.from_spec({"path": pspec, "condition": cond.to_json_like(), "doc": _copy.deepcopy(shape)})
+            docspecs[id(r)] = shape
+        else:
+            r = valida.Rule(path=valida.DataPath(*parts), condition=cond, doc=make_doc(rng))
+        rules.append(r)
     rng.shuffle(rules)
-    return valida.Schema(rules)
+    sch = valida.Schema(rules)
+    sch._verif_docspecs = docspecs
+    return sch
 
 
 # ------------------------------------------------------------------ observations
 def tree_event(i, schema, from_idx):
     rules = schema.rules
     e = {"id": i, "op": "tree", "rules": [enc_rule(r) for r in rules], "from": from_idx, "outcome": "", "nodes": [],
-         "nested_same": True, "evs": [], "texts_ok": True, "escaped_ok": True, "token_ok": True, "exc": ""}
+         "nested_same": True, "evs": [], "texts_ok": True, "escaped_ok": True, "token_ok": True, "exc": "", "docspecs": []}
+    ds = getattr(schema, "_verif_docspecs", {})
+    e["docspecs"] = [{"has": id(r) in ds, "spec": enc_val(ds.get(id(r))), "parsed": enc_val(r.doc)} for r in rules]
     fp = list(rules[from_idx - 1].path.parts) if from_idx else None
     out, flat = outcome_of(lambda: schema.to_tree(nested=False, from_path=fp))
     e["outcome"] = out
@@ -224,7 +242,7 @@ def html_event(i, nested, anchor, level=1, show_root=True):
     from valida.schema import write_tree_html
 
     e = {"id": i, "op": "html", "rules": [], "from": 0, "outcome": "", "nodes": [], "nested_same": True, "evs": [],
-         "texts_ok": True, "escaped_ok": True, "token_ok": True, "exc": ""}
+         "texts_ok": True, "escaped_ok": True, "token_ok": True, "exc": "", "docspecs": []}
     out, text = outcome_of(lambda: write_tree_html(nested, anchor_root=anchor, heading_start_level=level, show_root_heading=show_root))
     e["outcome"] = out
     if text is None:
